@@ -2,7 +2,7 @@
 From Coq Require Import QArith List.
 From Coq Require Extraction.
 From Coq Require Import ExtrOcamlBasic.
-From Scenic Require Import C17.Vec C04.Polytope C04.Overlap.
+From Scenic Require Import C17.Vec C04.Polytope C04.Overlap C04.Nested.
 Extraction Language OCaml.
-Extraction "model.ml" separates common_point inside_halfspaces vertex_outside
+Extraction "model.ml" separates common_point inside_halfspaces vertex_outside inside_clear
   intersects_vol intersects_obj contains_obj contains_footprint Qplus Qdiv Qred Qle_bool.
